@@ -19,6 +19,23 @@ fn main() {
     let rest = &args[args.len().min(1)..];
     match cmd {
         "version" => println!("vh {}", c2pa::VERSION),
+        "read-file" => {
+            // vh read-file <path> [sidecar.c2pa]: validation state of a file (optionally with an external manifest)
+            let path = &rest[0];
+            let bytes = std::fs::read(path).unwrap_or_default();
+            let fmt = c2pa::format_from_path(path).unwrap_or_default();
+            let c = common::ctx(&serde_json::json!({"verify": {"remote_manifest_fetch": false}}));
+            let r = if rest.len() > 1 {
+                let m = std::fs::read(&rest[1]).unwrap_or_default();
+                c2pa::Reader::from_context(c).with_manifest_data_and_stream(&m, &fmt, std::io::Cursor::new(bytes))
+            } else {
+                c2pa::Reader::from_context(c).with_stream(&fmt, std::io::Cursor::new(bytes))
+            };
+            match r {
+                Ok(r) => println!("{}", serde_json::json!({"state": common::state_str(&r), "failures": common::failure_codes(&r), "title": r.active_manifest().and_then(|m| m.title().map(|s| s.to_string()))})),
+                Err(e) => println!("{}", serde_json::json!({"state": format!("ReadErr:{}", common::err_kind(&e))})),
+            }
+        }
         "c04-replay" => c04::replay(rest),
         "c04-observe" => c04::observe(rest),
         "c04-legacy" => c04::legacy(rest),
